@@ -847,6 +847,18 @@ func (e *Exec) applyBlock(n *Node, rec *BlockRec, o applyOpts) (out applyOutcome
 		}
 		mid(i + 1)
 	}
+	if rec.EarlyPlan != nil {
+		plan := *rec.EarlyPlan
+		_, halt := n.guard("ScheduleUpgrade", func() {
+			if err := n.App.UpgradeKeeper.ScheduleUpgrade(n.DeliverCtx(), plan); err != nil {
+				panic(err)
+			}
+		})
+		if halt != nil {
+			out.Halt = halt
+			return
+		}
+	}
 	if rec.Plan != nil && !rec.PlanViaGov {
 		plan := *rec.Plan
 		_, halt := n.guard("ScheduleUpgrade", func() {
@@ -1474,6 +1486,8 @@ func (e *Exec) importProp(diffLine string) string {
 		return "C02" // the writer list changed without any transaction of the owner
 	case strings.Contains(diffLine, "pnft/token/") && strings.Contains(diffLine, "differs") && e.Prop == "C06":
 		return "C06" // a token changed (owner) without any transfer having been signed
+	case strings.Contains(diffLine, "pnft/token/") && e.Prop == "C12":
+		return "C12" // a token's recorded fields changed, or a token appeared or vanished, without any transaction
 	}
 	return "C08"
 }
